@@ -145,7 +145,7 @@ def native_run(h, model, maxcap=64):
     for name, a in h.arrays.items():
         info = inputs['arrays'][name]
         cap = h.cap_c.get(name, int(max(0, min(info['cap'], 100000))))
-        bufs[name] = dict(ctype=a.ctype, cap=cap, values=info['values'])
+        bufs[name] = dict(ctype=a.ctype, cap=cap, values=info['values'], sparse=info.get('sparse'), fill=info.get('fill', 0))
     calls = []
     for c in h.calls:
         args = []
@@ -217,6 +217,13 @@ def discharge(h, unit, oracle, twins=(), timeout_ms=30000, want_replay=True, ext
     for n, c in twins:
         r, _ = h.solve(c, timeout_ms)
         res['twins'][n] = str(r)
+    # translator validation (DESIGN 2.7): run the natively compiled kernels on a model of the premises and compare every cell of every
+    # writable buffer with the value the encoding predicts (sampled by unit name and VERIF_SEED in the quick tier)
+    if not res['violations'] and not res['unreproduced'] and nunk == 0 and _sampled(unit):
+        try:
+            res['validated'] = validate_encoding(h, [c for _, c in twins], timeout_ms)
+        except Exception as e:      # noqa
+            res['validated'] = dict(ok=None, why='%s: %s' % (type(e).__name__, e))
     if res['violations']:
         res['status'] = 'violation'
     elif res['unreproduced']:
@@ -228,6 +235,61 @@ def discharge(h, unit, oracle, twins=(), timeout_ms=30000, want_replay=True, ext
     res['funcs'] = sorted(h.eng.stats['funcs'])
     res['instrs'] = h.eng.stats['instrs']
     return res
+
+
+def _sampled(unit):
+    import os, zlib
+    if os.environ.get('VERIF_TIER', 'quick') == 'thorough':
+        return True
+    try:
+        seed = int(os.environ.get('VERIF_SEED', '0'))
+    except ValueError:
+        seed = 0
+    return (zlib.crc32(unit.encode()) + seed) % 3 == 0
+
+
+def validate_encoding(h, twin_conds, timeout_ms):
+    m = None
+    for c in twin_conds:                      # prefer an interesting model (a reachability twin)
+        r, m = h.solve(c, timeout_ms)
+        if r == z3.sat:
+            break
+        m = None
+    if m is None:
+        r, m = h.solve(z3.BoolVal(True), timeout_ms)
+        if r != z3.sat:
+            return dict(ok=None, why='no model')
+    inputs, nat = native_run(h, m)
+    if nat['status'] != 'ok' or not nat['results'] or nat['results'][-1].get('skip'):
+        return dict(ok=None, why='native run: %s' % nat['status'])
+    final = nat['results'][-1]['bufs']
+    ncell, bad = 0, []
+    for k, (cname, en, iserr) in enumerate(h.errs):
+        if k < len(nat['results']):
+            ne = nat['results'][k]['err'] is not None
+            if z3.is_true(m.eval(iserr, model_completion=True)) != ne:
+                bad.append(('status of call %d' % k, ne))
+    any_err = any(r['err'] is not None for r in nat['results'])
+    if not any_err:
+        for name, a in h.arrays.items():
+            if a.const or name not in final:
+                continue
+            o = h.mem.o[a.obj]
+            for i, nv in enumerate(final[name][:64]):
+                mv = m.eval(z3.Select(o.arr, z3.BitVecVal(i, 64)), model_completion=True)
+                if a.kind == 'f':
+                    pv = fp_to_py(mv)
+                    nvv = float(nv) if not isinstance(nv, str) else float(nv)
+                    same = (pv != pv and nvv != nvv) or pv == nvv
+                else:
+                    pv = mv.as_signed_long() if a.signed else mv.as_long()
+                    same = (bool(pv) == bool(nv)) if a.kind == 'b' else pv == int(nv)
+                ncell += 1
+                if not same:
+                    bad.append((name, i, pv, nv))
+    if bad:
+        return dict(ok=False, why='encoding and native run differ: %s' % (bad[:3],))
+    return dict(ok=True, cells=ncell)
 
 
 def guard(fn):
@@ -247,7 +309,8 @@ def guard(fn):
 def summarize(report, results, prop):
     """aggregate harness results into the report and a coverage dict (model_checking level)"""
     nobl = ndis = nq = 0
-    nontriv = 0
+    nontriv = nvalid = 0
+    mism = []
     funcs = set()
     samples = []
     inconcl, unsup, vac = [], [], []
@@ -261,6 +324,12 @@ def summarize(report, results, prop):
         nq += len(tw)
         nontriv += sum(1 for v in tw.values() if v == 'sat')
         funcs.update(r.get('funcs', []))
+        v_ = r.get('validated') or {}
+        if v_.get('ok') is True:
+            nvalid += 1
+        elif v_.get('ok') is False:
+            report.harness_errors.append('ENCODING MISMATCH in %s: %s' % (r['unit'], v_.get('why')))
+            mism.append(r['unit'])
         if st == 'violation':
             for v in r['violations']:
                 ob = v['obligation']
@@ -280,7 +349,7 @@ def summarize(report, results, prop):
             report.harness_errors.append('vacuous harness %s: twins %s' % (r['unit'], r.get('twins')))
         if st == 'ok' and len(samples) < 8 and r.get('obligations'):
             samples.append(dict(unit=r['unit'], bounds=r.get('bounds'), obligations=r['obligations'][:3], twins=tw))
-    cov = dict(states=max(1, len(results)), transitions=max(1, nobl), traces_validated_against_impl=0,
+    cov = dict(states=max(1, len(results)), transitions=max(1, nobl), traces_validated_against_impl=nvalid, encoding_mismatches=mism,
                obligations=nobl, discharged=ndis, evaluations=max(1, nq), distinct_nontrivial=nontriv,
                samples=samples or [dict(note='no passing harness')], functions_encoded=sorted(funcs)[:200],
                inconclusive=sorted(set(inconcl)), not_encodable=unsup, vacuous=vac,
